@@ -160,6 +160,7 @@ void FrameSimulator<W>::reset_all() {
     m_record.clear();
     det_record.clear();
     obs_record.clear();
+    last_correlated_error_occurred.clear();
 }
 
 template <size_t W>
